@@ -15,7 +15,7 @@ ERR = ["ERROR"]
 SPEC = {
     "C01": (["MESSAGE", "BROADCAST_ACK"] + ERR, [1], True, ["C01"]),
     "C02": (["MESSAGE", "BROADCAST_ACK"] + ERR, [1], True, ["C02"]),
-    "C03": (["CHAN_ACL", "SET_CHAN_ACL_ACK", "JOIN_ACK", "MESSAGE", "BROADCAST_ACK"] + ERR, [], True, []),
+    "C03": (["CHAN_ACL", "SET_CHAN_ACL_ACK", "JOIN_ACK", "MESSAGE", "BROADCAST_ACK"] + ERR, [], True, ["C03"]),
     "C04": (["SET_CHAN_ACL_ACK", "CHAN_ACL", "SET_CHAN_CONFIG_ACK", "CHAN_CONFIG", "MEMBERS_ACK", "JOIN_ACK", "LEAVE_ACK", "EVENT", "BROADCAST_ACK"] + ERR, [2], True, ["C04"]),
     "C05": (["CHANNELS_ACK", "MEMBERS_ACK", "JOIN_ACK", "LEAVE_ACK", "EVENT"] + ERR, [2], True, ["C05"]),
     "C06": (["CONNECT_ACK", "IDENTIFY_ACK", "AUTH_ACK"] + ERR, [0], True, []),
@@ -143,6 +143,7 @@ def run(prop, theorems, tier, replay=None, extra_gen=None, known_classifier=None
             return [(prop, "setup error: " + str(ob)[:200], 0)]
         v += srvmon.Tracker(case, ob).run()
         v += srvmon.audit_check(case, ob)
+        v += srvmon.acl_check(case, ob)
         for t, o in enumerate(ob["ops"]):
             for k, e in o.get("ended", {}).items():
                 if e.get("panicked"):
